@@ -64,6 +64,9 @@ func detectDuplicateStamps(list interface{}) error {
 // AddStamp makes it easier to add a new Stamp by replacing a previous
 // entry with a matching Key.
 func AddStamp(in []*Stamp, s *Stamp) []*Stamp {
+	if s == nil {
+		return in
+	}
 	if in == nil {
 		return []*Stamp{s}
 	}
